@@ -260,33 +260,9 @@ def describe_outcome(w: World, obs: Obs) -> Tuple[Any, ...]:
     return ('raise', type(e).__name__)
 
 
-def run_scenario(w: World, scn: Dict[str, Any], client_async: bool, suffix: str = '', sched: Optional[str] = None,
-                 reuse: Optional[Stack] = None, tok_prefix: str = 'f') -> Obs:
-    """Execute one scripted request.  With ``reuse`` the request is issued on an existing (long-lived) client /
-    server / network: only the fault script is replaced and the attempt counter restarted."""
-    obs = Obs()
-    node = 'client' + suffix
-    if reuse is None:
-        tracers = [RecTracer(w, i, node, raises_on_end=(scn.get('tracer_raises_on_end') == i))
-                   for i in range(scn['tracers'])]
-        st = Stack(
-            w, client_async, scn['server_async'], None,
-            client_kwargs={'strict': scn['strict'], 'tracers': tracers,
-                           'retry_strategy': build_strategy(scn['client_strategy'])},
-            script=_net_script(scn), suffix=suffix, sched=sched,
-        )
-        st.service.add_flaky(st.net.name)
-        st.dispatcher.add_methods(st.service.registry(['flaky']))
-    else:
-        st = reuse
-        st.net.script = _net_script(scn)
-        st.net.attempt = 0
-        st.net.raised = []
-    obs.stack, obs.net = st, st.net
-    toks = [f'{tok_prefix}{k}' for k in range(scn['n_elems'])]
-    w.plan[('flaky', toks[0])] = _flaky_plan(scn)
-    for t in toks[1:]:
-        w.plan[('flaky', t)] = ['ok'] * len(scn['script'])
+def make_op(st: Stack, scn: Dict[str, Any], toks: List[str], obs: 'Obs') -> Any:
+    """The caller's operation for one scripted request on ``st.client``: a thunk returning a value (sync client) or an
+    awaitable (async client)."""
     cl = st.client
     ctx = SimpleNamespace(mark='caller-ctx') if scn['trace_ctx'] else None
     obs.trace_ctx = ctx
@@ -321,10 +297,42 @@ def run_scenario(w: World, scn: Dict[str, Any], client_async: bool, suffix: str 
             obs.request = pjrpc.BatchRequest(*[pjrpc.Request('flaky', [t], i) for t, i in zip(toks, ids)])
             op = lambda: b.send(obs.request, **send_kw)  # noqa: E731
 
+    return op
+
+
+def run_scenario(w: World, scn: Dict[str, Any], client_async: bool, suffix: str = '', sched: Optional[str] = None,
+                 reuse: Optional[Stack] = None, tok_prefix: str = 'f') -> Obs:
+    """Execute one scripted request.  With ``reuse`` the request is issued on an existing (long-lived) client /
+    server / network: only the fault script is replaced and the attempt counter restarted."""
+    obs = Obs()
+    node = 'client' + suffix
+    if reuse is None:
+        tracers = [RecTracer(w, i, node, raises_on_end=(scn.get('tracer_raises_on_end') == i))
+                   for i in range(scn['tracers'])]
+        st = Stack(
+            w, client_async, scn['server_async'], None,
+            client_kwargs={'strict': scn['strict'], 'tracers': tracers,
+                           'retry_strategy': build_strategy(scn['client_strategy'])},
+            script=_net_script(scn), suffix=suffix, sched=sched,
+        )
+        st.service.add_flaky(st.net.name)
+        st.dispatcher.add_methods(st.service.registry(['flaky']))
+    else:
+        st = reuse
+        st.net.script = _net_script(scn)
+        st.net.attempt = 0
+        st.net.raised = []
+    obs.stack, obs.net = st, st.net
+    toks = [f'{tok_prefix}{k}' for k in range(scn['n_elems'])]
+    w.plan[('flaky', toks[0])] = _flaky_plan(scn)
+    for t in toks[1:]:
+        w.plan[('flaky', t)] = ['ok'] * len(scn['script'])
+    op = make_op(st, scn, toks, obs)
+
     for reset in _JITTER_RESETS:
         reset()
     start = len(w.history)
-    w.rec(node, 'caller.invoke', req_kind=kind, via=via)
+    w.rec(node, 'caller.invoke', req_kind=scn['kind'], via=scn['via'])
     try:
         if client_async:
             value = _run_async(w, st, op, scn.get('cancel_at'), obs, scn.get('in_except', False))
